@@ -79,6 +79,7 @@ class PyCodec:
     def decode(self, t, buf: bytes):
         m = self.mod.Packet()
         m.decode(bytearray(buf))
+        self.last_object = m  # a relay may encode the very object it decoded into
         return self.read(m, t)
 
 
@@ -237,6 +238,7 @@ class Fleet:
         if node["runtime"] == "py":
             try:
                 got = self.py[r].decode(tr, msg["bytes"])
+                self.last_decoded = ("py", self.py[r].last_object)
             except Exception as e:  # noqa
                 tb = traceback.extract_tb(e.__traceback__)
                 where = tb[-1].name if tb else "?"
@@ -257,6 +259,7 @@ class Fleet:
         if not codec.struct_guard_ok(st):
             return expected, "c-struct-overrun", ""
         got = codec.read(st)
+        self.last_decoded = ("c", st)
         d = first_diff(expected, got)
         if d:
             return expected, "c-wrong-value", d
@@ -284,7 +287,7 @@ class Fleet:
                 data = self.encode_at(n["runtime"], ver, value)
                 if n["runtime"] != "ref" and data != refmodel.ref_encode(self.roots[ver], value):
                     self.stats["encoder_vs_reference_mismatch"] += 1
-                msg = {"bytes": data, "sver": ver, "value": value, "hops": 0, "src_rt": n["runtime"], "sent_at": t, "relay_lat": ev.get("relay_lat", [10])}
+                msg = {"bytes": data, "sver": ver, "origin": ver, "value": value, "hops": 0, "src_rt": n["runtime"], "sent_at": t, "relay_lat": ev.get("relay_lat", [10])}
                 for dst, lat in zip(ev["dst"], ev["lat"]):
                     self.push(t + lat, "deliver", {"to": dst, "msg": msg, "sent_ver_of_dst": nodes[dst]["version"]})
             elif kind == "upgrade":
@@ -313,7 +316,12 @@ class Fleet:
                 if msg["hops"] > 0:
                     self.stats["multi_hop"] += 1
                 vh = hash_value(msg["value"])
-                if s > r:
+                # version skew anywhere on the path counts: a message that ORIGINATED from a newer
+                # version and was re-encoded by a relay is still data of the extended schema
+                skewed_path = msg.get("origin", s) > r and msg["hops"] > 0
+                if s > r or skewed_path:
+                    if skewed_path and not s > r:
+                        self.stats["relayed_from_newer_origin"] = self.stats.get("relayed_from_newer_origin", 0) + 1
                     self.stats["cross_version"] += 1
                     key = (s, r)
                     if key not in structural:
@@ -346,8 +354,23 @@ class Fleet:
                 if n["role"] == "relay" and msg["hops"] < 3 and sig is None:
                     nxt = [m for m in nodes.values() if m["id"] > n["id"] and m["runtime"] != "ref"]
                     if nxt:
-                        data = self.encode_at(n["runtime"], r, expected)
-                        fwd = {"bytes": data, "sver": r, "value": expected, "hops": msg["hops"] + 1, "src_rt": n["runtime"], "sent_at": t, "relay_lat": msg["relay_lat"]}
+                        if n.get("relay_same_object", True) and getattr(self, "last_decoded", None) and self.last_decoded[0] == n["runtime"]:
+                            # the usual relay: encode the very object / struct the message was decoded into
+                            kind, obj = self.last_decoded
+                            if kind == "py":
+                                try:
+                                    data = bytes(obj.encode())
+                                except Exception as e:  # noqa
+                                    self.violations.append({"sig": "py-relay-encode-exception:%s" % type(e).__name__, "detail": str(e)[:200], "s": s, "r": r, "runtime": "py", "src_runtime": msg["src_rt"], "t": t, "hops": msg["hops"], "delivery": self.stats["deliveries"], "value": msg["value"]})
+                                    continue
+                            else:
+                                rc, data, ok = self.c[r].encode(obj, self.nbytes(r))
+                                if rc != 0 or not ok:
+                                    raise HarnessError("C encoder crashed or overran its buffer on a relay (signal %d)" % rc)
+                            self.stats["relay_same_object"] = self.stats.get("relay_same_object", 0) + 1
+                        else:
+                            data = self.encode_at(n["runtime"], r, expected)
+                        fwd = {"bytes": data, "sver": r, "origin": max(msg.get("origin", s), s), "value": expected, "hops": msg["hops"] + 1, "src_rt": n["runtime"], "sent_at": t, "relay_lat": msg["relay_lat"]}
                         for j, m in enumerate(nxt[:2]):
                             lat = msg["relay_lat"][(msg["hops"] * 2 + j) % len(msg["relay_lat"])]
                             self.push(t + lat, "deliver", {"to": m["id"], "msg": fwd, "sent_ver_of_dst": m["version"]})
